@@ -393,9 +393,12 @@ def evaluate(ctx, plugin, cases):
     items = []
     for profile in plugin.PROFILES:
         binp = ctx.bins[profile]
-        lines = [plugin.harness_line(c) for c in cases]
+        # a plugin may adapt a case to a profile (drop operations whose out-of-contract behaviour is profile specific)
+        fp = getattr(plugin, "for_profile", None)
+        pcases = [fp(c, profile) for c in cases] if fp else cases
+        lines = [plugin.harness_line(c) for c in pcases]
         outs = run_impl(binp, lines, extra_env=getattr(plugin, "HARNESS_ENV", None))
-        for c, o in zip(cases, outs):
+        for c, o in zip(pcases, outs):
             items.append((c, profile, o, plugin.coq_term(c, o, profile)))
     return items
 
@@ -583,9 +586,15 @@ def run_check(ctx, plugin, replay):
         return 1
     terms = [it[3] for it in items]
     shard = getattr(plugin, "SHARD", 1500)
-    n_lem, n_lem_ok, bad_model, bad_spec, errors = check_batches(ctx, plugin, terms, shard)
-    ctx.say("[%s] correspondence: %d cases x %d profile(s), %d/%d batch lemmas hold (%.1fs)" % (
-        pid, len(cases), len(plugin.PROFILES), n_lem_ok, n_lem, time.time() - t_gen))
+    # identical case terms (typically: the release build returned what the debug build returned) are proved once
+    uniq = list(dict.fromkeys(terms))
+    upos = {t: k for k, t in enumerate(uniq)}
+    n_lem, n_lem_ok, bad_model_u, bad_spec_u, errors = check_batches(ctx, plugin, uniq, shard)
+    bm_u, bs_u = set(bad_model_u), set(bad_spec_u)
+    bad_model = [i for i, t in enumerate(terms) if upos[t] in bm_u]
+    bad_spec = [i for i, t in enumerate(terms) if upos[t] in bs_u]
+    ctx.say("[%s] correspondence: %d cases x %d profile(s) = %d distinct case terms, %d/%d batch lemmas hold (%.1fs)" % (
+        pid, len(cases), len(plugin.PROFILES), len(uniq), n_lem_ok, n_lem, time.time() - t_gen))
     if errors:
         path = write_replay(ctx, plugin, "broken-correspondence", "batch-error",
                             {"what": "a batch file does not compile", "log": errors[0][-4000:],
